@@ -421,7 +421,9 @@ def owners_rule(rep, prog, cfg):
                 if own != {M + "CommandList::render"}:
                     rep.fail(rule, "%s/%s %s" % (cfg, root, ns[0].rsplit("::", 1)[-1]), b.loc(b.blocks[bb]["ts"]),
                              "%s appends more than the line terminator to a command" % root)
-    missing = allowed - seen
+    # the rule is "nobody else writes"; that it still sees writers at all is guarded by the two that cannot go away — the
+    # argument appender and the list renderer (a `send` may delegate its terminator to the renderer: `CommandList::new(c).render()`)
+    missing = {M + "Command::add_argument", M + "CommandList::render"} - seen
     rep.check(not missing, rule + ".floor", cfg + "/expected writers present", "command.rs / connection.rs",
               "expected writers not found (anchor moved: failing closed): %s" % sorted(missing))
     # the buffer is not reachable from outside the crate
